@@ -369,11 +369,11 @@ impl LoadBalancingAlgorithm for PowerOfTwo {
                 }
             } else if first.as_ref().unwrap().0 <= measure && measure < second.as_ref().unwrap().0 {
                 second = Some((measure, backend));
-                // other case: we don't change anything
-            } else {
+            } else if measure < first.as_ref().unwrap().0 {
                 second = first.take();
                 first = Some((measure, backend));
             }
+            // other case (not lighter than the current second): we don't change anything
         }
 
         // `first` holds the lighter of the two tracked candidates and `second`
